@@ -10,8 +10,8 @@ from ..gen import corpus, mutate
 
 ID = "C06"
 LEVEL = "exploration"
-RULE = ("exhaustive token sequences (every sequence of <= L symbols of a 45-symbol alphabet, L=3 quick / 4 thorough; of an "
-        "18-symbol type-name alphabet, L=4 quick / 5 thorough; of 5 symbols over a 16-symbol alphabet on thorough) inserted in 6 "
+RULE = ("exhaustive token sequences (every sequence of <= L symbols of a 45-symbol alphabet, L=3 quick / 4 thorough; of a "
+        "20-symbol type-name alphabet, L=4 quick / 5 thorough; of 5 symbols over a 16-symbol alphabet on thorough) inserted in 6 "
         "contexts; every string of <= 3 (quick) / <= 4 (thorough) characters over the 21-character literal alphabet in 3 "
         "contexts; random token-level mutants of accepted programs (corpus, zoo and model-generated translation units); raw "
         "character noise; odd file names. A case is non-trivial when its text has >= 2 tokens; "
@@ -27,7 +27,7 @@ ALPHA45 = ["int", "T", "struct", "enum", "const", "_Atomic", "static", "typedef"
            "?", "...", "1", "1.5", "'a'", '"s"', 'L"s"', "x"]
 ALPHA16 = ["int", "T", "struct", "x", "(", ")", "[", "]", "{", "}", ";", ",", "*", "=", "1", ":"]
 # type-name oriented alphabet (atomic specifiers, abstract declarators, bit-fields)
-ALPHA18 = ["_Atomic", "(", ")", "int", "[", "]", "1", ";", "x", "*", "struct", "{", "}", "T", ",", "const", ":", "="]
+ALPHA18 = ["_Atomic", "(", ")", "int", "[", "]", "1", ";", "x", "*", "struct", "{", "}", "T", ",", "const", ":", "=", "_Alignas", "sizeof"]
 LIT_ALPHA = "0178 9afxXuUlL.ep+-'\"\\".replace(" ", "")
 CONTEXTS = [
     ("empty", "", ""),
